@@ -485,10 +485,12 @@ outer:
 						break
 					}
 				}
-				if touchedByNewPcaps {
+				if touchedByNewPcaps && id != nextStreamID {
 					streamCategory = &resetStreams
 					break
 				}
+				// the packet belongs to a known pcap but starts no indexed stream, e.g. a pcap that was
+				// queued but never indexed when the process was killed: keep looking for the stream's id
 			}
 			if !touchedByNewPcaps {
 				continue
